@@ -31,6 +31,8 @@ fixed(["C20"], "unequal-compare-equal:child-kind-changed*", "fix: message equali
       "two messages whose children differ only in kind (same name, attributes and value text) compared equal: to_dict() of a child does not hold its kind")
 fixed(["C12"], "later-valid-request-unanswered:*:number-400-digit-integer-*", "fix: number elements reject integers beyond the float range",
       "a number sent as hundreds of digits without exponent was stored as an arbitrary-size int; every later rendering of the vector raised OverflowError (pointed out by a seeding sub-agent's report on the unmodified code, reproduced by C12 after the catalogue got 400-digit numbers)")
+fixed(["C12"], "later-valid-request-unanswered:*:number-306-digit-integer-to-sexagesimal-format", "fix: sexagesimal rendering of integers whose scaled magnitude",
+      "an int of 304-309 digits fits a float and is accepted, but int x unit count is an int beyond the float range: num_to_str raised OverflowError on every rendering in a sexagesimal format (pointed out in a seeding sub-agent's notes on the unmodified code; reproduced by C12, then repaired)")
 known("C08", "payload-longer-than-threshold-on-threshold-enabled-link",
       "a BLOB message longer than the 2048-character junk threshold is discarded as junk by a framing buffer whose threshold is enabled "
       "(every client->driver upload on the server side; driver->client on a connection that asked for enableBLOB Also without for_blobs) "
